@@ -479,3 +479,5 @@ func tmKeyAddr(e providertypes.ValidatorConsumerPubKey) (string, error) {
 }
 
 var _ = stakingtypes.Bonded
+
+func (w *keysWorker) ProviderForTier2() *env.Provider { return w.p }
